@@ -30,7 +30,7 @@ STORE = ['store',
 
 VALUES = {
     'p': [UA, UB, UC], 'r': [DOC, UA], 'f': [gen.vbool(True), gen.vbool(False)], 'n': [gen.vlong(1), gen.vlong(2)],
-    'm': [gen.vlong(1), gen.vstr('s'), gen.vlong(gen.MAX64)], 'w': [UA, UB],
+    'm': [gen.vlong(1), gen.vstr('s'), gen.vlong(gen.MAX64)], 'w': [UA, UB], 'g': [G, gen.vent('Group', 'h'), UA],
 }
 
 
@@ -86,6 +86,17 @@ def gen_template(r):
             fields.append(('who', var(r.choice(['p', 'w'])) if r.random() < 0.7 else UA))
         if r.random() < 0.15:
             fields.append(('ig', ign()))
+        # unknowns nested below members of sets and inside records that are compared whole
+        if r.random() < 0.5:
+            fields.append(('groups', gen.vset([var('g') if r.random() < 0.7 else G, gen.vent('Group', 'z')])))
+        if r.random() < 0.4:
+            fields.append(('want', var(r.choice(['w', 'n'])) if r.random() < 0.7 else gen.vrec([('x', gen.vlong(1))])))
+        if r.random() < 0.4:
+            fields.append(('meta', gen.vrec([('x', var('n') if r.random() < 0.7 else gen.vlong(1))])))
+        if r.random() < 0.4:
+            fields.append(('sr', gen.vset([gen.vrec([('by', var('w') if r.random() < 0.7 else UA)])])))
+        if r.random() < 0.3:
+            fields.append(('ss', gen.vset([gen.vset([var('n') if r.random() < 0.7 else gen.vlong(1)]), gen.vset([])])))
         ctx = gen.vrec(fields)
     return p, ACT, res, ctx, ignored
 
@@ -131,6 +142,18 @@ def atom_expr(r):
         lambda: ['eq', ['mkrec', [S('a'), acc(C, 'n')]], lit(gen.vrec([('a', gen.vlong(1))]))],
         lambda: ['like', acc(P, 'name'), ['pat', S('al'), ['w']]],
         lambda: ['lt', acc(C, 'n'), acc(acc(C, 'r'), 'y')],
+        # an unknown (or residual) operand FOLLOWED by a composite operand that holds a nested unknown, and the mirrored order
+        lambda: ['in', P, acc(C, 'groups')],
+        lambda: ['in', acc(C, 'who'), acc(C, 'groups')],
+        lambda: ['contains', acc(C, 'groups'), P],
+        lambda: ['eq', acc(C, 'want'), acc(C, 'meta')],
+        lambda: ['eq', acc(C, 'meta'), acc(C, 'want')],
+        lambda: ['contains', acc(C, 'sr'), ['mkrec', [S('by'), P]]],
+        lambda: ['contains', acc(C, 'ss'), ['mkset', acc(C, 'n')]],
+        lambda: ['containsAll', acc(C, 'ss'), ['mkset', ['mkset', acc(C, 'n')]]],
+        lambda: ['eq', ['mkset', P, acc(C, 'who')], acc(C, 'groups')],
+        lambda: ['eq', ['mkrec', [S('a'), P], [S('b'), acc(C, 'meta')]], lit(gen.vrec([('a', UA), ('b', gen.vrec([('x', gen.vlong(1))]))]))],
+        lambda: ['lt', acc(C, 'n'), acc(acc(C, 'meta'), 'x')],
     ]
     return r.choice(choices)()
 
